@@ -105,7 +105,8 @@ def _leg_roles(u: Unit, node_names: Set[str]) -> Dict[int, Set[str]]:
                         arg = norm(v.args[0]) if isinstance(v, ast.Call) and v.args \
                             and (dotted(v.func) or "").endswith("Node") else ""
                         kinds.add(next((k for k in ("_trace_in", "_trace_out", "_trace_square")
-                                        if arg.endswith(k)), "other"))
+                                        if arg.endswith(k)),
+                                       "_trace" if arg == "self._trace" else "other"))
                     o = kinds.pop() if len(kinds) == 1 else "other"
                 sr = _store_role(other)
                 if o == "_trace_in":
@@ -114,6 +115,8 @@ def _leg_roles(u: Unit, node_names: Set[str]) -> Dict[int, Set[str]]:
                     add(ax, "SYS_OUT")
                 elif o == "_trace_square":
                     add(ax, "SYS_IN")
+                elif o == "_trace":
+                    add(ax, "SYS_IN" if ax == 2 else "SYS_OUT")
                 elif sr == "SYS":
                     add(ax, "SYS_IN")
                 elif sr == "BOND":
@@ -410,7 +413,8 @@ def cap_closings(prog: Program):
                         arg = norm(v.args[0]) if isinstance(v, ast.Call) and v.args \
                             and (dotted(v.func) or "").endswith("Node") else ""
                         ks.add(next((k for k in ("_trace_in", "_trace_out", "_trace_square")
-                                     if arg.endswith(k)), "cap"))
+                                     if arg.endswith(k)),
+                                    "_trace" if arg == "self._trace" else "cap"))
                     kind = ks.pop() if len(ks) == 1 else "cap"
                 rank = None
                 for (t, br) in branch_context(u.node, x):
@@ -425,8 +429,21 @@ def cap_closings(prog: Program):
             isinstance(t, ast.Compare) and "shape" in norm(t.left)
             and isinstance(t.comparators[0], ast.Constant) and t.comparators[0].value in (3, 4)
             for st in walk_local(u.node) if isinstance(st, ast.If) for t in [st.test])
+        # tensors taken with the transforms applied are closed with the plain trace vector,
+        # raw tensors with the trace vector pushed through the transforms
+        srcs_ = [expand(du, du.node_of(st.value), st.value.args[0])
+                 for st in walk_local(u.node) if isinstance(st, ast.Assign)
+                 and isinstance(st.value, ast.Call) and (dotted(st.value.func) or "").endswith("Node")
+                 and any(isinstance(t, ast.Name) and t.id in names for t in st.targets)]
+        transformed = bool(srcs_) and all(
+            isinstance(a_, ast.Call) and isinstance(a_.func, ast.Attribute)
+            and a_.func.attr == "get_mpo_tensor"
+            and not any(k.arg == "transformed" and isinstance(k.value, ast.Constant)
+                        and k.value.value is False for k in a_.keywords)
+            and len(a_.args) <= 1 for a_ in srcs_)
         want3 = {1: "cap", 2: "_trace_square"}
-        want4 = {1: "cap", 2: "_trace_in", 3: "_trace_out"}
+        want4 = {1: "cap", 2: "_trace", 3: "_trace"} if transformed else \
+            {1: "cap", 2: "_trace_in", 3: "_trace_out"}
         site = conns[0][3] if conns else None
         if has_branch:
             for rank, want in ((3, want3), (4, want4)):
@@ -451,16 +468,65 @@ def cap_closings(prog: Program):
 
 
 def m7(prog: Program, chk: Check, rule: str = "M7") -> None:
-    chk.rule(rule, "caps: a rank-4 MPO tensor is closed with (future bond: the later cap, system "
-             "in: trace_in, system out: trace_out), a rank-3 tensor with (the later cap, "
-             "trace_square) - in both compute_caps, for each rank branch; a version without a "
-             "rank branch takes its tensors from the expanding getter", floor=3)
+    chk.rule(rule, "caps: a raw rank-4 MPO tensor is closed with (future bond: the later cap, "
+             "system in: trace_in, system out: trace_out) - the trace vector pushed through the "
+             "transforms -, a tensor taken from get_mpo_tensor() with the transforms applied with "
+             "the plain trace vector on both system legs (transforms act exactly once), a rank-3 "
+             "tensor with (the later cap, trace_square) - in both compute_caps, for each rank "
+             "branch; a version without a rank branch takes its tensors from the expanding "
+             "getter", floor=3)
     for (u, label, got, want, site) in cap_closings(prog):
         chk.saw(u)
         chk.add(rule, u, f"{label}: legs closed with {got}", got == want,
                 "" if got == want else
                 f"expected {want}: a cap built otherwise carries a wrong weight, the states "
                 f"before the last step are no longer normalised", site)
+
+
+# --------------------------------------------------------------------- M8
+def m8(prog: Program, chk: Check) -> None:
+    chk.rule("M8", "the trace vectors that close raw tensors are the plain trace contracted with "
+             "the OUTER index of each transform as get_mpo_tensor applies it (M_in[k,i] T[..,i,j] "
+             "M_out[j,l]): trace_in[i] = sum_k tr[k] M_in[k,i], trace_out[j] = sum_l M_out[j,l] "
+             "tr[l] - so closing a raw tensor equals closing the transformed one with the plain "
+             "trace", floor=2)
+    from oqv import tensoridx as ti
+    u = prog.unit("process_tensor:BaseProcessTensor.__init__")
+    chk.saw(u)
+
+    def atom(x):
+        d = dotted(x)
+        if d == "self._trace":
+            return ti.Val.atom("tr", 1)
+        if d in ("self._transform_in", "tmp_transform_in", "transform_in"):
+            return ti.Val.atom("Min", 2)
+        if d in ("self._transform_out", "tmp_transform_out", "transform_out"):
+            return ti.Val.atom("Mout", 2)
+        return None
+    du = DefUse(u, CFG(u.node, exc_edges=False))
+    want = {"self._trace_in": ((("Min", 1),), ((("Min", 0), ("tr", 0)),)),
+            "self._trace_out": ((("Mout", 0),), ((("Mout", 1), ("tr", 0)),))}
+    seen = set()
+    for st in walk_local(u.node):
+        if not (isinstance(st, ast.Assign) and len(st.targets) == 1
+                and dotted(st.targets[0]) in want):
+            continue
+        tgt = dotted(st.targets[0])
+        v = expand(du, du.node_of(st.value), st.value)
+        if dotted(v) == "self._trace":
+            continue                      # no transform: the plain trace
+        seen.add(tgt)
+        val = ti.evaluate(v, atom)
+        sig = val.signature() if val is not None else None
+        chk.add("M8", u, f"{tgt} = {norm(st.value)}", sig == want[tgt],
+                "outer index of the transform contracted with the trace" if sig == want[tgt] else
+                f"index signature {sig}, expected {want[tgt]}: the trace vector is pushed through "
+                f"the transposed map - for a transform that is not a symmetric / trace-preserving "
+                f"superoperator every cap, and with it every state before the last step, is wrong",
+                st)
+    if seen != set(want):
+        raise AnalysisError(f"M8: transformed trace vectors not found in BaseProcessTensor.__init__ "
+                            f"({sorted(seen)})")
 
 
 # --------------------------------------------------------------------- M6
@@ -503,3 +569,4 @@ def run(prog: Program, chk: Check) -> None:
     chk.call(m5, prog, chk)
     chk.call(m6, prog, chk)
     chk.call(m7, prog, chk)
+    chk.call(m8, prog, chk)
